@@ -185,11 +185,12 @@ def run_engine_check(pid, tier, seed, wd):
     cfgs = cfgs_a + cfgs_b
     keys = ["k1", "k2", "k3"]
     if thorough:
-        ba = {"keys": keys, "sizes": [1, 2, 4], "max_ver": 5, "max_hits": 2, "seeds": 6}
-        bb = {"keys": keys, "sizes": [1, 2, 4], "max_ver": 4, "max_hits": 2, "seeds": 6}
+        ba = {"keys": keys, "sizes": [1, 2, 3, 4], "max_ver": 5, "max_hits": 2, "seeds": 6}
+        bb = {"keys": keys, "sizes": [1, 2, 3, 4], "max_ver": 4, "max_hits": 2, "seeds": 6}
     else:
-        ba = {"keys": keys, "sizes": [1, 2, 4], "max_ver": 3, "max_hits": 1, "seeds": 4}
-        bb = {"keys": keys, "sizes": [2, 4], "max_ver": 3, "max_hits": 1, "seeds": 4}
+        # sizes around the memory bound 3: below, exactly at it (a value that fits only alone), above
+        ba = {"keys": keys, "sizes": [1, 2, 3, 4], "max_ver": 3, "max_hits": 1, "seeds": 4}
+        bb = {"keys": keys, "sizes": [2, 3, 4], "max_ver": 3, "max_hits": 1, "seeds": 4}
     if thorough:
         # keep the exhaustive part within a budget of about 12 M transitions: cap the states explored per
         # configuration (a truncated configuration is reported as such, never silently)
@@ -207,7 +208,7 @@ def run_engine_check(pid, tier, seed, wd):
     if cfgs_x and not thorough:
         for g in job["groups"]:
             g["cfgs"] = [c for c in g["cfgs"] if c["w"] != "5000"]
-        bx = {"keys": keys, "sizes": [2, 4], "max_ver": 3, "max_hits": 2, "seeds": 2}
+        bx = {"keys": keys, "sizes": [2, 3, 4], "max_ver": 3, "max_hits": 2, "seeds": 2}
         job["groups"].append({"cfgs": cfgs_x, "bounds": bx})
         info["explore_bounds"]["w=5000"] = bx
     job_path = os.path.join(wd, "explore_job.json")
